@@ -111,6 +111,10 @@ def main(tier):
             chk.violation({"op": "eph-scheme", "got": line("EPH")}, "(chibi weak) at the Scheme level: got %s, expected (#f value x #t #t #f)" % line("EPH"))
         if line("EPH-AFTER-DROP") != "(#t #f)":
             chk.violation({"op": "eph-scheme-drop", "got": line("EPH-AFTER-DROP")}, "ephemeron not broken after its key was dropped: %s" % line("EPH-AFTER-DROP"))
+        if line("EPH-PORT") != "(#f #t #\\h #\\h 2)":
+            chk.violation({"op": "eph-port-value", "got": line("EPH-PORT")}, "a port held only as the value of an ephemeron with a live key must stay open and readable across collections: got %s, expected (#f #t #\\h #\\h 2)" % line("EPH-PORT"))
+        if line("EPH-PORT-AFTER-DROP") != "(#t #t #t)":
+            chk.violation({"op": "eph-port-drop", "got": line("EPH-PORT-AFTER-DROP")}, "after the key is dropped the ephemerons are broken and the ports released: got %s" % line("EPH-PORT-AFTER-DROP"))
         chk.sample("port history (open read drop gc): descriptor count returns to the base after the gc")
     common.cleanup_scratch()
     return chk.finish()
